@@ -635,7 +635,10 @@ Section Step.
                 finish_call fd vs st1
             end
         end
-    | Expr.TValueInc x d => do st1 <- value_inc st x d; Ok (None, st1)
+    | Expr.TValueInc _ d =>
+        (* read_value_word stores the name in data[0], the ValueInc arm reads value_s (absent): the variable with the
+           EMPTY name is incremented, nothing is pushed *)
+        do st1 <- value_inc st [] d; Ok (None, st1)
     | Expr.TMakeArray items =>
         (* exec_value on each item *)
         let tmp := ss_needs st in
